@@ -39,6 +39,11 @@ TESTS = {
     "C43": ["tests/test_mtls.py"], "C21": ["tests/test_unauthorized.py"], "C06": ["tests/test_bad_requests.py", "tests/test_wire.py"],
     "C15": ["tests/test_bad_requests.py"], "C16": ["tests/test_external.py"], "C17": ["tests/test_transport_chunking.py"],
     "C18": ["tests/test_transport_chunking.py"], "C19": ["tests/test_transport_chunking.py"],
+    "C02": ["tests/test_utils.py", "tests/test_wire.py", "tests/test_property_roundtrip.py"], "C03": ["tests/test_utils.py", "tests/test_wire.py", "tests/test_rpc_validation.py"],
+    "C05": ["tests/test_rpc.py", "tests/test_broken_pipe.py"], "C07": ["tests/test_rpc.py", "tests/test_log.py"], "C08": ["tests/test_http.py", "tests/test_log.py"],
+    "C11": ["tests/test_http.py"], "C31": ["tests/test_external.py", "tests/test_external_fetch.py"], "C34": ["tests/test_access_log_rotation.py", "tests/test_access_log_spec.py"],
+    "C41": ["tests/test_unix_concurrent.py", "tests/test_tcp_transport.py"], "C42": ["tests/test_pool.py"], "C26": ["tests/test_conformance_http_sticky.py"],
+    "C29": ["tests/test_shm.py", "tests/test_property_shm.py"], "C32": ["tests/test_launcher.py"], "C33": ["tests/test_launcher.py", "tests/test_unix_concurrent.py"],
     "C01": ["tests/test_rpc.py"], "C04": ["tests/test_rpc.py", "tests/test_stream_cancel.py"], "C10": ["tests/test_stream_cancel.py"],
 }
 
